@@ -376,3 +376,116 @@ theorem roundHalfEven_close (x : Rat) :
       · rw [h3]; constructor <;> grind
 
 end SP.Report
+
+namespace SP.Report
+
+/-! ### the JSON keys are pairwise different (finding F20, repaired) -/
+
+theorem le_maxLen_foldl (l : List String) (m : Nat) : m ≤ l.foldl (fun m s => max m s.length) m := by
+  induction l generalizing m with
+  | nil => exact Nat.le_refl _
+  | cons x xs ih => simp only [List.foldl_cons]; exact Nat.le_trans (Nat.le_max_left _ _) (ih _)
+
+theorem mem_le_maxLen (l : List String) (s : String) (h : s ∈ l) : s.length ≤ maxLen l := by
+  unfold maxLen
+  have : ∀ (l : List String) (m : Nat), s ∈ l → s.length ≤ l.foldl (fun m s => max m s.length) m := by
+    intro l
+    induction l with
+    | nil => intro m h; cases h
+    | cons x xs ih =>
+      intro m h
+      simp only [List.foldl_cons]
+      rcases List.mem_cons.mp h with h | h
+      · subst h; exact Nat.le_trans (Nat.le_max_right _ _) (le_maxLen_foldl xs _)
+      · exact ih _ h
+  exact this l 0 h
+
+/-- the key `freshKey` returns is not among the names seen so far -/
+theorem freshKey_not_mem (seen : List String) (fuel : Nat) (k : String) (h : maxLen seen < k.length + fuel) :
+    freshKey seen fuel k ∉ seen := by
+  induction fuel generalizing k with
+  | zero =>
+    unfold freshKey
+    intro hm
+    have := mem_le_maxLen seen k hm
+    omega
+  | succ f ih =>
+    unfold freshKey
+    split
+    · apply ih
+      rw [String.length_append]
+      have : "_".length = 1 := rfl
+      omega
+    · rename_i hc
+      intro hm
+      apply hc
+      exact List.contains_iff_mem.mpr hm
+
+theorem uniqNames_aux (l : List (String × Nat)) (acc : List String) (hacc : acc.Nodup) :
+    (l.foldl (fun acc ni =>
+      let k0 := if acc.contains ni.1 then ni.1 ++ "_" ++ toString (ni.2 + 1) else ni.1
+      acc ++ [freshKey acc (maxLen acc + 1) k0]) acc).Nodup ∧
+    (l.foldl (fun acc ni =>
+      let k0 := if acc.contains ni.1 then ni.1 ++ "_" ++ toString (ni.2 + 1) else ni.1
+      acc ++ [freshKey acc (maxLen acc + 1) k0]) acc).length = acc.length + l.length := by
+  induction l generalizing acc with
+  | nil => exact ⟨hacc, rfl⟩
+  | cons x xs ih =>
+    simp only [List.foldl_cons]
+    have hfresh : freshKey acc (maxLen acc + 1) (if acc.contains x.1 then x.1 ++ "_" ++ toString (x.2 + 1) else x.1) ∉ acc :=
+      freshKey_not_mem acc _ _ (by omega)
+    have hnd : (acc ++ [freshKey acc (maxLen acc + 1) (if acc.contains x.1 then x.1 ++ "_" ++ toString (x.2 + 1) else x.1)]).Nodup := by
+      rw [List.nodup_append]
+      refine ⟨hacc, by simp, ?_⟩
+      intro a ha b hb
+      have : b = freshKey acc (maxLen acc + 1) (if acc.contains x.1 then x.1 ++ "_" ++ toString (x.2 + 1) else x.1) := by
+        simpa using hb
+      intro hab
+      rw [this] at hab
+      exact hfresh (hab ▸ ha)
+    obtain ⟨h1, h2⟩ := ih _ hnd
+    refine ⟨h1, ?_⟩
+    rw [h2]; simp; omega
+
+/-- **the JSON keys are pairwise different, one per column** — whatever the titles are -/
+theorem uniqNames_nodup (names : List String) : (uniqNames names).Nodup ∧ (uniqNames names).length = names.length := by
+  unfold uniqNames
+  have := uniqNames_aux names.zipIdx [] List.nodup_nil
+  refine ⟨this.1, ?_⟩
+  rw [this.2]; simp
+
+/-- titles that are already pairwise different are kept as they are -/
+theorem uniqNames_of_nodup_aux (l : List (String × Nat)) (acc : List String)
+    (h : ∀ x ∈ l, x.1 ∉ acc) (hnd : (l.map (·.1)).Nodup) :
+    l.foldl (fun acc ni =>
+      let k0 := if acc.contains ni.1 then ni.1 ++ "_" ++ toString (ni.2 + 1) else ni.1
+      acc ++ [freshKey acc (maxLen acc + 1) k0]) acc = acc ++ l.map (·.1) := by
+  induction l generalizing acc with
+  | nil => simp
+  | cons x xs ih =>
+    simp only [List.foldl_cons, List.map_cons]
+    have hx : x.1 ∉ acc := h x List.mem_cons_self
+    have hc : acc.contains x.1 = false := by
+      cases hcc : acc.contains x.1 with
+      | false => rfl
+      | true => exact absurd (List.contains_iff_mem.mp hcc) hx
+    have hfk : freshKey acc (maxLen acc + 1) x.1 = x.1 := by
+      unfold freshKey; simp only [hc, Bool.false_eq_true, if_false]
+    simp only [hc, Bool.false_eq_true, if_false, hfk]
+    have hnd' : x.1 ∉ xs.map (·.1) ∧ (xs.map (·.1)).Nodup := List.nodup_cons.mp hnd
+    rw [ih (acc ++ [x.1]) ?_ hnd'.2]
+    · simp
+    · intro y hy hm
+      rcases List.mem_append.mp hm with hm | hm
+      · exact h y (List.mem_cons_of_mem _ hy) hm
+      · have hyx : y.1 = x.1 := by simpa using hm
+        apply hnd'.1
+        rw [← hyx]
+        exact List.mem_map_of_mem (f := (·.1)) hy
+
+theorem uniqNames_of_nodup (names : List String) (h : names.Nodup) : uniqNames names = names := by
+  unfold uniqNames
+  rw [uniqNames_of_nodup_aux names.zipIdx [] (fun _ _ hm => by cases hm) (by simpa using h)]
+  simp
+
+end SP.Report
